@@ -14,12 +14,21 @@ Tie to the code (every run):
       * every call order of length <= 5 of set_boundaries / remove_boundaries /
         non_negative setter / save+load on real Parameter objects (depth-first
         enumeration, the model enumerates the same tree), incl. one proposal per
-        reached state; the same through the GibbsChain API with real .npz files.
+        reached state; the same through the GibbsChain API with real .npz files;
+      * OBJECT LIFETIMES (Properties/C04Life.v, Model/BoundsLife.v): scripted PcaChain /
+        HamiltonianChain / EnsembleSampler objects built with bounds are driven through
+        histories of take_step / advance and save -> load round trips (real .npz
+        images, before any step, mid-run, twice in a row); every step of the object --
+        also of the RELOADED one -- is replayed through Model/Samplers.v with the box
+        the MODEL's hook carries after that history from the constructor's argument
+        (life_code), never with anything read back from the object, and the bounds
+        the object reports are compared with the model's attribute (attr_code).
   [R] run-time checks on the implementation (tests, not proofs): recording
       posteriors on GibbsChain, PcaChain(bounds), HamiltonianChain(bounds) and
       EnsembleSampler(bounds) runs with step sizes far larger than the box --
       every evaluation point and every stored sample inside the closed limits up
-      to 4 ulp at the scale of the limits; Bounds.reflect on arbitrary doubles.
+      to 4 ulp at the scale of the limits; Bounds.reflect on arbitrary doubles;
+      the same runs interrupted by save -> load round trips (all five sampler kinds).
 
 Property oracle used when a correspondence breaks: membership of the point in the
 limits in force (from the call history), identity inside, and the fold / momentum
@@ -36,6 +45,8 @@ from fractions import Fraction
 import numpy as np
 
 from lib import common as C
+from lib import samplers as S
+from lib import sampler_cases as SC
 from lib.scripted import ScriptedRNG, RecordingPosterior, quadratic_logp
 
 PROP = "C04"
@@ -50,6 +61,14 @@ THEOREMS = [
     "C04_fsm_limits_in_force_pinned_refuted", "C04_fsm_non_negative_pinned_refuted",
     "C04_fsm_pinned_witnesses",
 ]
+
+# object lifetimes (Properties/C04Life.v)
+LIFE_THEOREMS = [
+    "C04_life_pca_inside", "C04_life_hmc_inside", "C04_life_ens_inside", "C04_life_limits_fixpoint",
+    "C04_life_code_is_construction_box", "C04_life_unhooked_attr_kept", "C04_life_unhooked_hook_lost",
+    "C04_life_unhooked_load_refuted",
+]
+HEADER_LIFE = S.HEADER.replace("Model.Samplers.", "Model.Samplers Model.BoundsLife.")
 
 HEADER = """From Coq Require Import List ZArith QArith Bool.
 From IT Require Import Model.Reflect Model.ProposalFSM.
@@ -568,8 +587,51 @@ def weak_posterior(lo, hi):
     return RecordingPosterior(fn, gr)
 
 
-def run_sampler(kind, r, cfg=None):
-    """Build and advance one real sampler; return (points evaluated, stored samples, lo, hi, cfg)."""
+def save_load_obj(ch, kind, post):
+    """obj.save(image); Class.load(image, posterior=...) through a real .npz image in memory."""
+    I = impl()
+    buf = io.BytesIO()
+    ch.save(buf)
+    buf.seek(0)
+    if kind == "pca":
+        new = I["PcaChain"].load(buf, posterior=post)
+    elif kind in ("hmc", "hmc_fd"):
+        new = I["HamiltonianChain"].load(buf, posterior=post, grad=None if kind == "hmc_fd" else post.gradient)
+    elif kind == "ensemble":
+        new = I["EnsembleSampler"].load(buf, posterior=post)
+    elif kind == "gibbs":
+        new = I["GibbsChain"].load(buf, posterior=post)
+        if not hasattr(new, "display_progress"):      # D10a is C09's business (see apply_chain_op)
+            new.display_progress = False
+    else:
+        raise ValueError(kind)
+    return new
+
+
+def stepping(total, trips, one_step, round_trip):
+    """`total` steps with a save -> load round trip after each step index listed in `trips`
+    (0 = before the first step; a repeated index = consecutive round trips)."""
+    trips = sorted(trips or [])
+    for k in range(total + 1):
+        for _ in range(trips.count(k)):
+            round_trip()
+        if k < total:
+            one_step()
+
+
+def gen_trips(r, total):
+    """where a lifetime run is interrupted: before any step / early / mid-run / twice in a row"""
+    t = [r.choice([0, 0, 1, 2, total // 3])]
+    if r.random() < 0.6:
+        t.append(r.randint(1, max(1, total - 2)))
+    if r.random() < 0.4:
+        t.append(t[-1])
+    return sorted(t)
+
+
+def run_sampler(kind, r, cfg=None, life=False):
+    """Build and advance one real sampler; return (points evaluated, stored samples, lo, hi, cfg).
+    cfg["saveload_after"] (set when life=True): the run is interrupted by save -> load round trips."""
     I = impl()
     seed = r.getrandbits(32) if cfg is None else cfg["seed"]
     rr = np.random.default_rng(seed)
@@ -580,6 +642,9 @@ def run_sampler(kind, r, cfg=None):
                "upper": [float(v).hex() for v in hi], "scale": r.choice([3.0, 50.0, 4000.0]),
                "mass": r.choice(["none", "scalar", "vector", "matrix"]),
                "start_on_wall": (r.random() < 0.5) or (kind == "hmc_fd" and r.random() < 0.6)}
+        if life:
+            cfg["saveload_after"] = gen_trips(r, {"pca": 140, "hmc": 25, "hmc_fd": 8, "ensemble": 25}[kind])
+    trips = cfg.get("saveload_after")
     lo = np.array([float.fromhex(v) for v in cfg["lower"]])
     hi = np.array([float.fromhex(v) for v in cfg["upper"]])
     n, w = len(lo), hi - lo
@@ -605,8 +670,16 @@ def run_sampler(kind, r, cfg=None):
             for i, p in enumerate(ch.params):
                 p.rng = np.random.default_rng(seed + 1 + i)
             n0 = len(post.evals)
-            for _ in range(140):
-                ch.take_step()
+            box = [ch, 0]
+
+            def trip_pca():
+                box[0] = save_load_obj(box[0], kind, post)
+                box[1] += 1
+                box[0].rng = rr
+                for i, p in enumerate(box[0].params):
+                    p.rng = np.random.default_rng(seed + 1 + i + 1000 * box[1])
+            stepping(140, trips, lambda: box[0].take_step(), trip_pca)
+            ch = box[0]
             samples = ch.get_sample(burn=0)
         elif kind in ("hmc", "hmc_fd"):
             mass = cfg["mass"]
@@ -625,11 +698,16 @@ def run_sampler(kind, r, cfg=None):
             ch.rng = rr
             ch.steps = 6
             n0 = 0          # the constructor's evaluation of the start point counts too
+            box = [ch]
+
+            def trip_hmc():
+                box[0] = save_load_obj(box[0], kind, post)
+                box[0].rng = rr
             try:
-                for _ in range(25 if kind == "hmc" else 8):
-                    ch.take_step()
+                stepping(25 if kind == "hmc" else 8, trips, lambda: box[0].take_step(), trip_hmc)
             except ValueError:
                 pass        # "failed to take step within maximum attempts" is not C04's subject
+            ch = box[0]
             samples = np.array(ch.theta)
         elif kind == "ensemble":
             nw = max(n + 2, 6)
@@ -639,7 +717,16 @@ def run_sampler(kind, r, cfg=None):
                                       display_progress=False)
             ch.rng = rr
             n0 = 0
-            ch.advance(25)
+            if not trips:
+                ch.advance(25)
+            else:
+                box = [ch]
+
+                def trip_ens():
+                    box[0] = save_load_obj(box[0], kind, post)
+                    box[0].rng = rr
+                stepping(25, trips, lambda: box[0].advance(1), trip_ens)
+                ch = box[0]
             samples = ch.sample
         else:
             raise ValueError(kind)
@@ -648,8 +735,9 @@ def run_sampler(kind, r, cfg=None):
     return pts, np.asarray(samples, dtype=float), lo, hi, cfg
 
 
-def run_gibbs_limits(r, cfg=None):
-    """GibbsChain with boundaries on parameter 0, non-negativity on 1, both on 2."""
+def run_gibbs_limits(r, cfg=None, life=False):
+    """GibbsChain with boundaries on parameter 0, non-negativity on 1, both on 2.
+    cfg["saveload_after"] (set when life=True): interrupted by save -> load round trips."""
     I = impl()
     seed = r.getrandbits(32) if cfg is None else cfg["seed"]
     rr = np.random.default_rng(seed)
@@ -659,6 +747,9 @@ def run_gibbs_limits(r, cfg=None):
         cfg = {"kind": "gibbs", "seed": seed, "lower": [float(lo[0]).hex(), (-3 * w2).hex()],
                "upper": [float(hi[0]).hex(), float(w2).hex()], "scale": r.choice([3.0, 50.0, 4000.0]),
                "order": r.choice(["nn_first", "sb_first"])}
+        if life:
+            cfg["saveload_after"] = gen_trips(r, 120)
+    trips = cfg.get("saveload_after")
     lo = [float.fromhex(v) for v in cfg["lower"]]
     hi = [float.fromhex(v) for v in cfg["upper"]]
     w0, w2 = hi[0] - lo[0], hi[1]
@@ -684,8 +775,16 @@ def run_gibbs_limits(r, cfg=None):
             ch.set_boundaries(2, (lo[1], hi[1]))
             ch.set_non_negative(2, True)
         n0 = len(post.evals)
-        for _ in range(120):
-            ch.take_step()
+        box = [ch, 0]
+
+        def trip_gibbs():
+            box[0] = save_load_obj(box[0], "gibbs", post)
+            box[1] += 1
+            box[0].rng = rr
+            for i, p in enumerate(box[0].params):
+                p.rng = np.random.default_rng(seed + 1 + i + 1000 * box[1])
+        stepping(120, trips, lambda: box[0].take_step(), trip_gibbs)
+        ch = box[0]
         samples = ch.get_sample(burn=1)
     pts = np.array([[float(v) for v in th] for th, _ in post.evals[n0:]])
     L = np.array([lo[0], 0.0, 0.0])
@@ -699,12 +798,12 @@ def check_run(pts, samples, lo, hi):
     if len(o):
         i, j = o[0]
         bad.append(f"posterior evaluated at coordinate {j} = {pts[i, j]!r}, limits "
-                   f"[{lo[j]!r}, {hi[j]!r}] ({len(o)} such entries)")
+                   f"[{float(lo[j])!r}, {float(hi[j])!r}] ({len(o)} such entries)")
     o = outside(samples, lo, hi)
     if len(o):
         i, j = o[0]
         bad.append(f"stored sample {i} has coordinate {j} = {samples[i, j]!r}, limits "
-                   f"[{lo[j]!r}, {hi[j]!r}] ({len(o)} such entries)")
+                   f"[{float(lo[j])!r}, {float(hi[j])!r}] ({len(o)} such entries)")
     return bad
 
 
@@ -725,6 +824,125 @@ def reflect_float_check(r, n_cases):
             bad.append({"kind": "reflect", "lower": [float(v).hex() for v in lo],
                         "upper": [float(v).hex() for v in hi], "theta": [float(v).hex() for v in th]})
     return bad
+
+
+
+# ------------------------------------------------------------------ F. object lifetimes, exact
+LIFE_KINDS = ["pca", "hmc", "ensemble"]
+LIFE_TEMPLATES = [["L", "S", "S"], ["S", "S", "L", "S", "S"], ["S", "L", "L", "S"], ["S", "L", "S", "L", "S"]]
+CLASS_OF = {"pca": "PcaChain", "hmc": "HamiltonianChain", "ensemble": "EnsembleSampler", "gibbs": "GibbsChain",
+            "hmc_fd": "HamiltonianChain"}
+
+
+def gen_life(r, kind):
+    """A sampler configuration WITH bounds whose raw proposals / trajectories leave the box, and a
+    history of steps (S) and save -> load round trips (L) with at least one step after a round trip."""
+    cfg = None
+    for _ in range(200):
+        c = SC.make_config(r, kind)
+        if c["bounds"] is not None:
+            cfg = c
+            break
+    if cfg is None:
+        raise RuntimeError("no bounded configuration generated")
+    if kind in ("pca", "hmc") and r.random() < 0.6:       # a narrow dyadic box around the start
+        cfg["bounds"] = ([s - r.choice([0.25, 0.5, 1.0]) for s in cfg["start"]],
+                         [s + r.choice([0.25, 0.5, 1.0]) for s in cfg["start"]])
+    lo, hi = cfg["bounds"]
+    if kind == "pca":                                     # proposal widths of 2 - 32 box widths
+        mult = r.choice([2.0, 8.0, 32.0])
+        cfg["widths"] = [(h - l) * mult for l, h in zip(lo, hi)]
+        # axis directions only: with everything dyadic the folds of these very wide proposals are exact in
+        # double precision; the 0.6/0.8 rotation is not, and a proposal folded back EXACTLY onto the current
+        # point (a tie p_new == p_old, decided differently by a rounding) is common on this coarse lattice
+        cfg["rotate"] = False
+    if kind == "ensemble":
+        cfg["alpha"] = r.choice([5.0, 8.0])               # stretch factors up to alpha
+    if r.random() < 0.6:
+        ops = list(r.choice(LIFE_TEMPLATES))
+    else:
+        ops = [("L" if r.random() < 0.35 else "S") for _ in range(r.randint(2, 6))]
+        if "L" not in ops or "S" not in ops[ops.index("L"):]:
+            ops += ["L", "S"]
+    if kind == "ensemble":                                # an iteration moves every walker: keep it short
+        while ops.count("S") > 3:
+            ops.remove("S")
+        if "S" not in ops[ops.index("L"):]:
+            ops.append("S")
+    return cfg, ops
+
+
+def box_term(cfg):
+    lo, hi = cfg["bounds"]
+    return S.bounds_coq((S.frs(lo), S.frs(hi)))
+
+
+def run_life(cfg, ops):
+    """Drive the real object through the history.  Returns (terms, what each term is, property
+    failures): the terms are Coq expressions of type nat (result codes, see Model/Samplers.v);
+    the failures are the property evaluated on the implementation (every evaluation point of
+    every step and every stored point inside the box given to the constructor, 4 ulp)."""
+    kind = cfg["kind"]
+    lo, hi = np.array(cfg["bounds"][0], dtype=float), np.array(cfg["bounds"][1], dtype=float)
+    b0 = box_term(cfg)
+    ch, post, rng, _ = SC.build(cfg)
+    terms, what, bad = [], [], []
+    k = n_step = 0
+
+    def oracle(pts, where):
+        o = outside(pts, lo, hi) if len(pts) else []
+        if len(o):
+            i, j = o[0]
+            v = float(np.atleast_2d(np.asarray(pts, dtype=float))[i, j])
+            bad.append(f"{where}: coordinate {j} = {v!r}, limits given at construction "
+                       f"[{float(lo[j])!r}, {float(hi[j])!r}] ({len(o)} such entries)")
+
+    for op in ops:
+        if op == "L":
+            ch = save_load_obj(ch, kind, post)
+            if kind == "pca":
+                S.attach_rng(ch, rng)
+            else:
+                ch.rng = rng
+            k += 1
+            b = getattr(ch, "bounds", None)
+            seen = None if b is None else (S.frs(b.lower), S.frs(b.upper))
+            terms.append(f"(attr_code {b0} {C.cnat(k)} {S.bounds_coq(seen)})")
+            what.append(f"bounds reported after round trip {k}")
+            if seen is None or seen[0] != S.frs(lo) or seen[1] != S.frs(hi):
+                bad.append(f"after round trip {k} the object no longer reports the limits it was built with")
+            continue
+        m_e, m_g = len(post.evals), len(post.grad_evals)
+        try:
+            if kind == "pca":
+                recs = S.record_pca(ch, post, rng, 1)
+            elif kind == "hmc":
+                recs = S.record_hmc(ch, post, rng, 1)
+            else:
+                recs = S.record_ensemble(ch, post, rng, 1)
+        except ValueError as e:
+            if "maximum allowed attempts" not in str(e):
+                raise
+            break           # "failed to take step within maximum attempts" is not C04's subject
+        n_step += 1
+        where = f"step {n_step} ({'after %d save/load round trip(s)' % k if k else 'before any save'})"
+        oracle([[float(v) for v in th] for th, _ in post.evals[m_e:]], where + ", posterior evaluated")
+        oracle([[float(v) for v in th] for th, _ in post.grad_evals[m_g:]], where + ", gradient evaluated")
+        recs[0].pre["bounds"] = "hook"          # the box is the MODEL's, after this history
+        terms.append(f"(life_code {b0} {C.cnat(k)} (fun hook => {SC.coq_terms(cfg, recs)[0]}))")
+        what.append(where)
+    if kind == "pca":
+        stored = ch.get_sample(burn=0)
+    elif kind == "hmc":
+        stored = np.array(ch.theta)
+    else:
+        stored = ch.sample if ch.sample is not None else ch.walker_positions
+    oracle(np.asarray(stored, dtype=float).reshape(-1, len(lo)), "stored sample")
+    return terms, what, bad
+
+
+def life_case(cfg, ops):
+    return {"kind": "life", "cfg": SC.describe(cfg), "ops": list(ops)}
 
 
 # ------------------------------------------------------------------ the run
@@ -760,6 +978,14 @@ def run(rep: C.Report, tier: str) -> int:
             rep.coverage["sampler_model_audit"] = a2
         except C.ProofFailure as e:
             rep.obligation(False, len(extra))
+            rep.violation("C04/proof", f"proof obligation no longer checks: {e.what}",
+                          {"theorem_or_correspondence": e.what, "log": e.log[-1000:]}, False)
+        try:
+            a3 = C.coq_audit(PROP + "_life", LIFE_THEOREMS, "IT.Properties.C04Life")
+            rep.obligation(True, len(LIFE_THEOREMS))
+            rep.coverage["lifetime_model_audit"] = a3
+        except C.ProofFailure as e:
+            rep.obligation(False, len(LIFE_THEOREMS))
             rep.violation("C04/proof", f"proof obligation no longer checks: {e.what}",
                           {"theorem_or_correspondence": e.what, "log": e.log[-1000:]}, False)
     files, meta = [], []        # meta[i] = (group, list of case keys)
@@ -961,12 +1187,53 @@ def run(rep: C.Report, tier: str) -> int:
     rep.coverage["chain_selector_posterior_evaluations_checked_R"] = chain_evals
 
     lap('chain-selector-impl')
+    # ---- F. object lifetimes: construct(bounds) -> steps / save -> load round trips -> steps
+    r = C.rng_for(PROP, "lifetimes-exact")
+    lives = []                    # (cfg, ops, first term index, number of terms, what, oracle failures)
+    lterms = []
+    for kind in LIFE_KINDS:
+        for _ in range(12 if big else 4):
+            cfg, ops = gen_life(r, kind)
+            rep.count(f"life/{kind}")
+            rep.count("life/history=" + "".join(ops))
+            rep.case(("life", json.dumps(SC.describe(cfg), sort_keys=True, default=str), "".join(ops)))
+            try:
+                with warnings.catch_warnings():
+                    warnings.simplefilter("ignore")
+                    terms, what, bad = run_life(cfg, ops)
+            except Exception as e:
+                rep.violation(f"C04/life/{kind}/exception",
+                              f"{CLASS_OF[kind]}: history {''.join(ops)} (S = step, L = save/load) raised {e!r}",
+                              {"case": life_case(cfg, ops)}, True)
+                continue
+            if len(lives) < 2:
+                rep.sample({"lifetime": {"sampler": kind, "history": "".join(ops), "bounds": cfg["bounds"],
+                                         "widths": cfg.get("widths"), "alpha": cfg.get("alpha")}})
+            lives.append((cfg, ops, len(lterms), len(terms), what, bad))
+            lterms += terms
+            if bad:
+                rep.violation(f"C04/life/{kind}/outside-limits",
+                              f"{CLASS_OF[kind]} built with bounds, history {''.join(ops)} (S = step, "
+                              f"L = save/load): {bad[0]}", {"case": life_case(cfg, ops)}, True)
+    rep.evaluations += len(lterms)
+    LCH = 10
+    for i in range(0, len(lterms), LCH):
+        part = lterms[i:i + LCH]
+        body = "Definition codes : list nat :=\n " + C.clist(part, ";\n ") + "."
+        files.append(C.write_case_file(PROP, f"life_{i // LCH}", HEADER_LIFE, body,
+                                       ["with_code 1 codes 0", "with_code 2 codes 0", "with_code 3 codes 0"]))
+        meta.append(("life", list(range(i, i + len(part)))))
+    rep.coverage["lifetime_histories"] = len(lives)
+    rep.coverage["lifetime_steps_and_reports_checked_in_coq"] = len(lterms)
+
+    lap('lifetimes-impl')
     # ---- run Coq on everything
     outs = C.run_case_files(files, jobs=14, timeout=1500 if big else 600)
     n_checked = {}
     sel_fail, sel_fail_pinned, sel_files_ok = [], [], True
+    life_codes = {}
     for p, (group, keys), (ok, res, log) in zip(files, meta, outs):
-        need = 2 if group in ("selector", "chain_selector") else 1
+        need = 2 if group in ("selector", "chain_selector") else 3 if group == "life" else 1
         if not ok or any(i not in res for i in range(need)):
             rep.obligation(False)
             if group in ("selector", "chain_selector"):
@@ -977,6 +1244,12 @@ def run(rep: C.Report, tier: str) -> int:
         rep.obligation(True)
         n_checked[group] = n_checked.get(group, 0) + len(keys)
         fails = [keys[j] for j in res[0] if j < len(keys)] + ([keys[-1]] if any(j >= len(keys) for j in res[0]) else [])
+        if group == "life":
+            for code, slot in ((1, 0), (2, 1), (3, 2)):
+                for j in res[slot]:
+                    if j < len(keys):
+                        life_codes[keys[j]] = code
+            continue
         if group == "reflect":
             for (k, j) in fails[:10]:
                 handle_reflect_fail(rep, rcases[k], rout[k], j)
@@ -993,6 +1266,36 @@ def run(rep: C.Report, tier: str) -> int:
                                                       if isinstance(n_checked, dict) else int(n_checked))
     rep.coverage["traces_validated_breakdown"] = n_checked
     rep.coverage["correspondence_disagreements"] = {"selector": len(sel_fail)}
+
+    # ---- lifetimes: a step of the real object that is not a step of the model with the
+    #      construction box (code 1; 3 = the model could not follow) -> look for a failing input
+    rep.coverage["lifetime_undecided_steps"] = sum(1 for c in life_codes.values() if c == 2)
+    for cfg, ops, t0, nt, what, bad in lives:
+        kind = cfg["kind"]
+        off = [j for j in range(nt) if life_codes.get(t0 + j) in (1, 3)]
+        if not off or bad:        # (a visible failure has been reported above with its input)
+            continue
+        found = None
+        rs = C.rng_for(PROP, "lifetimes-search")
+        for _ in range(6):        # the same class of history with proposals far wider than the box
+            try:
+                pts, samples, lo_, hi_, c2 = run_sampler(kind, rs, life=True)
+            except Exception:
+                continue
+            b2 = check_run(pts, samples, lo_, hi_)
+            if b2:
+                found = (c2, b2)
+                break
+        if found:
+            rep.violation(f"C04/life/{kind}/outside-limits",
+                          f"{CLASS_OF[kind]} built with bounds and saved/loaded: {found[1][0]}",
+                          {"case": {"kind": "run", "cfg": found[0]}}, True)
+        else:
+            rep.violation(f"C04/life/{kind}/correspondence",
+                          f"{CLASS_OF[kind]}: {what[off[0]]} of the history {''.join(ops)} is not a step of the "
+                          "model with the box given at construction, but no point was seen outside the limits",
+                          {"theorem_or_correspondence": "Model.BoundsLife.life_code / attr_code "
+                                                        "(C04_life_*_inside)", "case": life_case(cfg, ops)}, False)
 
     lap('coq-case-files')
     # ---- selector disagreements: look for a concrete failing input
@@ -1055,6 +1358,30 @@ def run(rep: C.Report, tier: str) -> int:
             if bad:
                 key = K_FD if kind == "hmc_fd" else (K_SELECTOR if kind == "gibbs" else f"C04/run/{kind}/outside-limits")
                 rep.violation(key, f"{kind}: {bad[0]}", {"case": {"kind": "run", "cfg": cfg}}, True)
+    r = C.rng_for(PROP, "lifetimes")
+    lruns = {"gibbs": 3, "pca": 4, "hmc": 4, "ensemble": 4, "hmc_fd": 3}
+    if big:
+        lruns = {k: 6 * v for k, v in lruns.items()}
+    for kind, cnt in lruns.items():
+        for _ in range(cnt):
+            try:
+                if kind == "gibbs":
+                    pts, samples, lo, hi, cfg = run_gibbs_limits(r, life=True)
+                else:
+                    pts, samples, lo, hi, cfg = run_sampler(kind, r, life=True)
+            except Exception as e:
+                rep.violation(f"C04/run/{kind}/exception", f"{kind} run with save/load round trips raised {e!r}",
+                              {"theorem_or_correspondence": f"run-time check of {kind} with save/load"}, False)
+                continue
+            n_pts += len(pts) + len(samples)
+            rep.count(f"run-with-save-load/{kind}")
+            rep.count(f"run-with-save-load/{kind}/points", len(pts))
+            rep.case(("run", json.dumps(cfg, sort_keys=True)))
+            bad = check_run(pts, samples, lo, hi)
+            if bad:
+                key = K_FD if kind == "hmc_fd" else (K_SELECTOR if kind == "gibbs" else f"C04/life/{kind}/outside-limits")
+                rep.violation(key, f"{kind} with save/load after steps {cfg['saveload_after']}: {bad[0]}",
+                              {"case": {"kind": "run", "cfg": cfg}}, True)
     rep.coverage["runtime_R_points_checked"] = n_pts
     rb = reflect_float_check(C.rng_for(PROP, "reflect-float"), 20000 if big else 3000)
     rep.coverage["runtime_R_reflect_on_arbitrary_doubles"] = 20000 if big else 3000
@@ -1066,14 +1393,20 @@ def run(rep: C.Report, tier: str) -> int:
     rep.coverage['violations_per_key'] = dict(seen_keys)
     rep.coverage['timing_s'] = timing
     rep.coverage["labels"] = {
-        "T_proved_for_all_inputs": THEOREMS,
+        "T_proved_for_all_inputs": THEOREMS + LIFE_THEOREMS,
         "X_exact_correspondence_inside_Coq": ["Bounds.reflect / reflect_momenta (dyadic arrays)",
                                               "Parameter.boundary_proposal / abs_proposal (scripted draw)",
                                               "HamiltonianChain.bounded_leapfrog with zero force",
-                                              "Parameter selector, all call orders <= 5; GibbsChain API + .npz <= 3/4"],
+                                              "Parameter selector, all call orders <= 5; GibbsChain API + .npz <= 3/4",
+                                              "object lifetimes: every step of PcaChain / HamiltonianChain / "
+                                              "EnsembleSampler objects built with bounds, before and after save -> "
+                                              "load round trips, replayed with the box of the model's hook "
+                                              "(Model.BoundsLife.life_code); reported bounds (attr_code)"],
         "R_runtime_tests_only": ["recording posterior on GibbsChain / PcaChain / HamiltonianChain / EnsembleSampler "
                                  "runs (4 ulp tolerance)", "Bounds.reflect on arbitrary doubles (4 ulp tolerance)",
-                                 "GibbsChain.take_step after each API call sequence"],
+                                 "GibbsChain.take_step after each API call sequence",
+                                 "the sampler runs interrupted by save -> load round trips (before any step, early, "
+                                 "mid-run, twice in a row), all five kinds"],
     }
     rep.assumptions = [
         "exact comparisons use dyadic inputs on which every + - * // % of the code is exact in double precision",
@@ -1086,6 +1419,10 @@ def run(rep: C.Report, tier: str) -> int:
         "a call that would leave it empty or a single point is refused with a warning",
         "HMC with a full mass matrix, PCA directions after an update and ensemble stretch moves are covered "
         "only by the [R] runs (positions pass through Bounds.reflect, which is proved and tied exactly)",
+        "object lifetimes: the limits in force are the `bounds` argument of the constructor (the caller's history), "
+        "carried by Model/BoundsLife.v through every save -> load; the numeric state of each step is re-read from "
+        "the real object (tolerance 1e-9 relative, as in C01/C09), its round trip through the file is C09's subject; "
+        "adaptation is frozen in these histories",
     ]
     return rep.finish(
         level="proof",
@@ -1097,7 +1434,10 @@ def run(rep: C.Report, tier: str) -> int:
              "units; theta inside / on a wall / on a far wall / over by 1-3, <=5000, <=2^20 widths / one grid unit "
              "outside); scripted Parameter proposals; force-free bounded leapfrog (1-12 steps); all selector call "
              "orders of length <=5 over the listed alphabet (Parameter) and <=3 (quick) / <=4 (thorough) through "
-             "GibbsChain + .npz; a case is non-trivial unless every theta is inside; distinct = distinct inputs")
+             "GibbsChain + .npz; object lifetimes: bounded PcaChain / HamiltonianChain / EnsembleSampler "
+             "configurations (proposal widths 2-32 boxes, alpha 5-8, narrow dyadic boxes) x histories of 2-7 steps "
+             "and save/load round trips (at the start, mid-run, twice in a row); a case is non-trivial unless every "
+             "theta is inside; distinct = distinct inputs")
 
 
 # ------------------------------------------------------------------ failing-input search helpers
@@ -1216,6 +1556,13 @@ def replay(path):
         out = run_leap(case)
         print("bounded_leapfrog returned", out.get("t"), out.get("r"))
         bad = oracle_leap(case, out) if out["status"] == "ok" else [out["error"]]
+    elif kind == "life":
+        cfg = SC.undescribe(c["cfg"])
+        with warnings.catch_warnings():
+            warnings.simplefilter("ignore")
+            _, _, bad = run_life(cfg, list(c["ops"]))
+        print(f"{CLASS_OF[cfg['kind']]}(bounds={cfg['bounds']}) through the history {''.join(c['ops'])} "
+              "(S = one step, L = save -> load)")
     elif kind == "run":
         cfg = c["cfg"]
         r = C.rng_for(PROP, "replay")
